@@ -1337,3 +1337,121 @@ Proof.
               (or_intror (or_intror (or_introl eq_refl))) F) as (s & G & P).
   unfold vs in G. rewrite timelock_spend_verbatim in G. inversion G; subst s. exact P.
 Qed.
+
+(* ======================================================================================== *)
+(* I. where scripts travel and where the classification is used                               *)
+(* ======================================================================================== *)
+
+(* a generated script framed by its compact-size length (as inside a serialised transaction) is read
+   back whole, for EVERY total script length below 2^63, whatever follows *)
+Theorem frame_roundtrip : forall s rest, N.of_nat (length s) < 9223372036854775808 ->
+  unframe (frame s ++ rest) = Some (s, rest).
+Proof.
+  intros s rest H. unfold unframe, frame.
+  rewrite LV.Wire.CompactSize.read_string_encode by exact H. reflexivity.
+Qed.
+
+Theorem generated_output_on_wire : forall name ops vs, In (name, ops) output_templates -> values_fit ops vs ->
+  exists s, generate ops vs = Some s /\
+    (forall rest, N.of_nat (length s) < 9223372036854775808 ->
+       exists s', unframe (frame s ++ rest) = Some (s', rest) /\
+                  parse_output s' = SMatch name (expected ops vs)).
+Proof.
+  intros name ops vs HIn Hf. destruct (generate_parse_output_fit name ops vs HIn Hf) as (s & G & P).
+  exists s. split; [exact G|]. intros rest H. exists s. split; [apply frame_roundtrip; exact H | exact P].
+Qed.
+
+Theorem generated_input_on_wire : forall name ops vs, In (name, ops) input_simple_templates -> values_fit ops vs ->
+  exists s, generate ops vs = Some s /\
+    (forall rest, N.of_nat (length s) < 9223372036854775808 ->
+       exists s', unframe (frame s ++ rest) = Some (s', rest) /\
+                  parse_input s' = SMatch name (expected ops vs)).
+Proof.
+  intros name ops vs HIn Hf. destruct (generate_parse_input_fit name ops vs HIn Hf) as (s & G & P).
+  exists s. split; [exact G|]. intros rest H. exists s. split; [apply frame_roundtrip; exact H | exact P].
+Qed.
+
+(* ---- the daemon-facing type, the stored type and the coin filter ---- *)
+Definition locked_shape (toks : list token) : Prop :=
+  claim_shape toks \/ update_shape toks \/ support_shape toks \/ support_data_shape toks.
+
+Lemma locked_class s toks : tokenize s = TokOk toks -> locked_shape toks ->
+  classify s = CClaim \/ classify s = CUpdate \/ classify s = CSupport \/ classify s = CSupportData.
+Proof.
+  intros T [H|[H|[H|H]]];
+    [left | right; left | do 2 right; left | do 3 right];
+    apply classify_iff; exists toks; split; assumption.
+Qed.
+
+(* a claim, update or support output is shown as claim / support, stored as a claim type / support and
+   is NOT a coin -- whatever the other outputs of the transaction are (a purchase record behind it
+   included) and whatever the protobuf decoder says *)
+Theorem view_locked : forall decodable scripts i s toks,
+  nth_error scripts i = Some s -> tokenize s = TokOk toks -> locked_shape toks ->
+  exists jt r, view_at decodable scripts i = Some (Some jt, r, false) /\
+    (jt = JClaimCreate \/ jt = JClaimUpdate \/ jt = JSupport) /\ (r = 1 \/ r = 3) /\
+    (claim_shape toks -> jt = JClaimCreate /\ r = 1) /\
+    (update_shape toks -> jt = JClaimUpdate /\ r = 1) /\
+    (support_shape toks \/ support_data_shape toks -> jt = JSupport /\ r = 3).
+Proof.
+  intros decodable scripts i s toks Hn T L. unfold view_at. rewrite Hn.
+  assert (X : forall c1 c2, shape_class c1 -> shape_class c2 -> classify s = c1 -> class_shape c2 toks -> c1 = c2).
+  { intros c1 c2 S1 S2 E H. apply (class_shape_exclusive c1 c2 toks S1 S2); [|exact H].
+    apply classify_iff in E. destruct c1; try contradiction;
+      destruct E as (toks' & T' & Hs); rewrite T in T'; inversion T'; subst; exact Hs. }
+  destruct (locked_class s toks T L) as [E|[E|[E|E]]]; rewrite E; cbn.
+  - exists JClaimCreate, 1. split; [reflexivity|]. split; [auto|]. split; [auto|].
+    split; [auto|]. split.
+    + intro H. pose proof (X CClaim CUpdate I I E H). discriminate.
+    + intros [H|H]; [pose proof (X CClaim CSupport I I E H) | pose proof (X CClaim CSupportData I I E H)]; discriminate.
+  - exists JClaimUpdate, 1. split; [reflexivity|]. split; [auto|]. split; [auto|].
+    split; [intro H; pose proof (X CUpdate CClaim I I E H); discriminate|]. split; [auto|].
+    intros [H|H]; [pose proof (X CUpdate CSupport I I E H) | pose proof (X CUpdate CSupportData I I E H)]; discriminate.
+  - exists JSupport, 3. split; [reflexivity|]. split; [auto|]. split; [auto|].
+    split; [intro H; pose proof (X CSupport CClaim I I E H); discriminate|].
+    split; [intro H; pose proof (X CSupport CUpdate I I E H); discriminate | auto].
+  - exists JSupport, 3. split; [reflexivity|]. split; [auto|]. split; [auto|].
+    split; [intro H; pose proof (X CSupportData CClaim I I E H); discriminate|].
+    split; [intro H; pose proof (X CSupportData CUpdate I I E H); discriminate | auto].
+Qed.
+
+(* an output is shown / stored as a purchase only when it is a plain payment at position 0 whose
+   neighbour at position 1 is a decodable purchase record *)
+Theorem view_purchase_only_payment : forall decodable scripts i jt r sp,
+  view_at decodable scripts i = Some (jt, r, sp) -> (jt = Some JPurchase \/ r = 4) ->
+  i = O /\ (exists s0 s1 rest, scripts = s0 :: s1 :: rest /\ purchase_record decodable s1 = true /\
+                                (classify s0 = CPayment \/ classify s0 = CEmpty \/ classify s0 = CData
+                                 \/ classify s0 = CPurchase \/ classify s0 = CNoMatch)) /\
+  (jt = Some JPurchase -> exists s0, nth_error scripts 0 = Some s0 /\ (classify s0 = CPayment \/ classify s0 = CEmpty)).
+Proof.
+  intros decodable scripts i jt r sp H K. unfold view_at in H.
+  destruct (nth_error scripts i) as [s|] eqn:Hn; [|discriminate]. inversion H; subst; clear H.
+  assert (Lk : linked_at decodable scripts i = true).
+  { destruct (linked_at decodable scripts i); [reflexivity|]. exfalso.
+    destruct K as [K|K]; destruct (classify s); cbn in K; discriminate. }
+  unfold linked_at in Lk. destruct i as [|i]; [|discriminate].
+  destruct scripts as [|s0 [|s1 rest]]; try discriminate.
+  cbn in Hn. inversion Hn; subst s0. split; [reflexivity|]. split.
+  - exists s, s1, rest. split; [reflexivity|]. split; [exact Lk|].
+    destruct K as [K|K]; destruct (classify s) eqn:C; cbn in K; try discriminate; try tauto;
+      apply classify_iff in C; contradiction.
+  - intro J. exists s. split; [reflexivity|]. destruct (classify s); cbn in J; try discriminate; tauto.
+Qed.
+
+(* the sweep: everything the coin filter lets through has no claim / update / support shape *)
+Theorem spendable_not_locked : forall decodable scripts i s toks jt r,
+  nth_error scripts i = Some s -> tokenize s = TokOk toks ->
+  view_at decodable scripts i = Some (jt, r, true) -> ~ locked_shape toks.
+Proof.
+  intros decodable scripts i s toks jt r Hn T V L.
+  destruct (view_locked decodable scripts i s toks Hn T L) as (jt' & r' & V' & _).
+  rewrite V in V'. inversion V'.
+Qed.
+
+Lemma ex_view :
+  tx_view (fun _ => true)
+    [bs [181; 1; 97; 1; 98; 109; 117; 118; 169; 1; 99; 136; 172]; bs [106; 2; 80; 1]; bs [118; 169; 1; 99; 136; 172]]
+  = [Some (Some JClaimCreate, 1, false); Some (Some JData, 0, true); Some (Some JPayment, 0, true)]
+  /\ tx_view (fun _ => true) [bs [118; 169; 1; 99; 136; 172]; bs [106; 2; 80; 1]]
+  = [Some (Some JPurchase, 4, true); Some (Some JData, 0, true)].
+Proof. split; vm_compute; reflexivity. Qed.
